@@ -187,6 +187,11 @@ theorem C02_ack_owed_sent (k : Kcp) (full : Bool) (now : U32) (a : Ack) (hl : k.
     obtain ⟨post, hpost⟩ := hg.keeps hw
     exact ⟨pre, post, by rw [flush_wire, hpost]⟩
 
+/-- non-vacuity: two owed acks, the first one stale (`sn 4 < rcv_nxt 6`) and dropped by the filter,
+the last one always sent, with `una = rcv_nxt = 6` -/
+example : (flush { Kcp.new 1 with acklist := [⟨4, 8⟩, ⟨5, 9⟩], rcv_nxt := 6 } false 0).outs =
+    [encodeHdr 1 82 0 32 9 5 6 0] := by decide
+
 /-- the ack list is always flushed, even with an empty list nothing remains -/
 theorem C02_flush_empties_acklist (k : Kcp) (full : Bool) (now : U32) : (flush k full now).k.acklist = [] := by
   obtain ⟨_, _, _, _, _, _, h⟩ := flush_frame k full now
